@@ -116,13 +116,230 @@ fn ssi_all(l: &InvLink, red: bool) -> Option<(i32, i32)> {
     guard_timeout(240, move || ssi_invariants::<P>(&l, &P::variable(), red)).flatten()
 }
 
+// ---------------------------------------------------------------------------------------------
+// involution data of InvLink (inv_e / inv_x) against the code model Model/C19Inv.lean
+
+type EM = std::collections::BTreeMap<usize, usize>;
+
+fn sorted_edges(l: &Link) -> Vec<usize> { let mut es: Vec<usize> = l.edges().into_iter().collect(); es.sort(); es }
+
+fn pairs_txt(l: &Link, f: &EM) -> String {
+    sorted_edges(l).iter().map(|&e| format!("{}:{}", e, f.get(&e).copied().unwrap_or(e))).collect::<Vec<_>>().join(" ")
+}
+
+/// `E e:inv_e(e) … X i:index of inv_x(crossing i) …`; None = some lookup panicked
+fn inv_data_txt(il: &InvLink) -> Option<String> {
+    guard(|| {
+        let l = il.link();
+        let e = sorted_edges(l).iter().map(|&e| format!(" {}:{}", e, il.inv_e(e))).collect::<String>();
+        let x = l.data().iter().enumerate().map(|(i, x)| { let y = il.inv_x(x); let j = l.data().iter().position(|z| z == y).unwrap(); format!(" {}:{}", i, j) }).collect::<String>();
+        format!("E{} X{}", e, x)
+    })
+}
+
+/// the decidable hypotheses of the Lean theorem `inv_x_involutive_of_checks`, re-evaluated independently on the diagram
+fn hyp_of(l: &Link, f: &EM) -> bool {
+    let ap = |e: usize| f.get(&e).copied().unwrap_or(e);
+    let sets: Vec<std::collections::BTreeSet<usize>> = l.data().iter().map(|x| x.edges().iter().cloned().collect()).collect();
+    let invol = l.data().iter().flat_map(|x| x.edges().iter()).all(|&e| ap(ap(e)) == e);
+    let same_card = sets.iter().all(|a| a.len() == sets[0].len());
+    let distinct = (0..sets.len()).all(|i| (0..sets.len()).all(|j| sets[i] != sets[j] || l.data()[i] == l.data()[j]));
+    invol && same_card && distinct
+}
+
+/// is inv_x, for every crossing, the FIRST crossing containing the images of its labels (what the cone reference uses)?
+fn ref_of(il: &InvLink) -> bool {
+    guard(|| {
+        let d = il.link().data();
+        d.iter().all(|x| {
+            let img: Vec<usize> = x.edges().iter().map(|&e| il.inv_e(e)).collect();
+            let first = d.iter().position(|y| img.iter().all(|e| y.edges().contains(e)));
+            first == d.iter().position(|z| z == il.inv_x(x))
+        })
+    }).unwrap_or(false)
+}
+
+fn base_txt(b: Option<usize>) -> String { b.map(|b| b.to_string()).unwrap_or("_".into()) }
+
+/// `InvLink::new` (and `mirror` of the result) on an arbitrary link / label map / base point
+fn new_case(s: &mut Sink, kind: &str, l: &Link, f: &EM, base: Option<usize>) -> Option<InvLink> {
+    let got = { let (l1, f1) = (l.clone(), f.clone()); guard(move || InvLink::new(l1, move |e| f1.get(&e).copied().unwrap_or(e), base)) };
+    let hyp = hyp_of(l, f) as u8;
+    for mirror in [false, true] {
+        let req = format!("{} {} {} {}", if mirror { "invmirror" } else { "invnew" }, base_txt(base), link_txt(l), pairs_txt(l, f));
+        let il = got.as_ref().and_then(|il| if mirror { guard(|| il.mirror()) } else { Some(il.clone()) });
+        let reply = match il.as_ref().and_then(|il| inv_data_txt(il).map(|t| (t, ref_of(il) as u8))) {
+            Some((t, rf)) => format!("ok {} hyp={} ref={}", t, hyp, rf),
+            None => "panic".to_string(),
+        };
+        s.count(&format!("inv.{}.{}", kind, if reply == "panic" { "panic" } else { "ok" }));
+        s.case(&req, &reply, true);
+        if got.is_none() { break }
+    }
+    got
+}
+
+fn sinv_case(s: &mut Sink, kind: &str, pd: &Pd) -> Option<InvLink> {
+    let got = { let p = pd.clone(); guard(move || InvLink::sinv_knot_from_code(p)) };
+    let req = format!("sinv {} {}", pd.len(), pd.iter().flat_map(|c| c.iter()).map(|e| e.to_string()).collect::<Vec<_>>().join(" "));
+    let reply = match got.as_ref().and_then(|il| inv_data_txt(il).map(|t| (il.link().edges().len(), t))) {
+        Some((n, t)) => format!("ok n={} {}", n, t),
+        None => "panic".to_string(),
+    };
+    s.count(&format!("sinv.{}.{}", kind, if reply == "panic" { "panic" } else { "ok" }));
+    s.case(&req, &reply, true);
+    got
+}
+
+/// what the property needs from the involution data of a loadable diagram: τ is induced by an involution of the diagram
+fn inv_oracles(s: &mut Sink, name: &str, il: &InvLink) {
+    let ok = guard(|| {
+        let l = il.link();
+        let es = sorted_edges(l);
+        let e_inv = es.iter().all(|&e| es.contains(&il.inv_e(e)) && il.inv_e(il.inv_e(e)) == e);
+        let base = il.base_pt().map(|p| il.inv_e(p) == p).unwrap_or(true);
+        let x_inv = l.data().iter().all(|x| {
+            let y = il.inv_x(x);
+            let img: std::collections::BTreeSet<usize> = x.edges().iter().map(|&e| il.inv_e(e)).collect();
+            let ys: std::collections::BTreeSet<usize> = y.edges().iter().cloned().collect();
+            l.data().contains(y) && il.inv_x(y) == x && img == ys && y.ctype() == x.ctype()
+        });
+        (e_inv, base, x_inv)
+    });
+    let d = link_txt(il.link());
+    match ok {
+        Some((a, b, c)) => {
+            s.oracle(a, "the edge map of a loadable involutive diagram is an involution of its edge labels", &format!("{} [{}]", d, name), "");
+            s.oracle(b, "the base point of a loadable involutive diagram lies on the axis (is fixed by the edge map)", &format!("{} [{}]", d, name), "");
+            s.oracle(c, "the crossing map of a loadable involutive diagram is an involution sending each crossing to the crossing of the same type carrying exactly the image labels", &format!("{} [{}]", d, name), "");
+        }
+        None => s.oracle(false, "inv_e / inv_x are defined on every edge / crossing of a loadable involutive diagram", &format!("{} [{}]", d, name), "panic"),
+    }
+}
+
+fn emap_of(il: &InvLink) -> EM { sorted_edges(il.link()).into_iter().map(|e| (e, il.inv_e(e))).collect() }
+
+fn relabel(pd: &Pd, f: impl Fn(usize) -> usize) -> Pd { pd.iter().map(|c| c.map(|e| f(e))).collect() }
+
+/// one malformed / boundary variant of a symmetric PD code
+fn mutate(r: &mut Rng, pd: &Pd) -> (&'static str, Pd) {
+    let n = pd.iter().flat_map(|c| c.iter()).cloned().max().unwrap_or(1);
+    let any = |r: &mut Rng| 1 + r.below(n as u64) as usize;
+    match r.below(12) {
+        0 => { let a = any(r); let b = if a == n { 1 } else { a + 1 }; ("merge-two-labels(odd)", relabel(pd, |e| if e == a { b } else { e })) }
+        1 => ("shift+1", relabel(pd, |e| e + 1)),
+        2 => ("zero-based", relabel(pd, |e| e.saturating_sub(1))),
+        3 => ("gap-at-top", relabel(pd, |e| if e == n { n + 1 } else { e })),
+        4 => { let a = any(r); ("gap-inside", relabel(pd, |e| if e == a { n + 2 } else { e })) }
+        5 | 6 => { let (a, b) = (any(r), any(r)); ("swap-two-labels", relabel(pd, |e| if e == a { b } else if e == b { a } else { e })) }
+        7 => { let mut p = pd.clone(); let i = r.below(p.len() as u64) as usize; let (j, k) = (r.below(4) as usize, r.below(4) as usize); p[i].swap(j, k); ("swap-slots-in-one-crossing", p) }
+        8 => { let mut p = pd.clone(); let i = r.below(p.len() as u64) as usize; p.push(p[i]); ("duplicate-crossing", p) }
+        9 => { let mut p = pd.clone(); let i = r.below(p.len() as u64) as usize; p[i].rotate_left(1 + r.below(3) as usize); ("rotate-one-crossing", p) }
+        10 => { let mut p = pd.clone(); let i = r.below(p.len() as u64) as usize; let j = r.below(4) as usize; p[i][j] = any(r); ("overwrite-one-slot", p) }
+        _ => { let mut p = pd.clone(); let i = r.below(p.len() as u64) as usize; p.remove(i); ("drop-crossing", p) }
+    }
+}
+
+fn inv_stream(s: &mut Sink, r: &mut Rng, thorough: bool, cone_max: usize) {
+    // hand-written boundary cases of InvLink::new
+    let tre: Pd = vec![[1, 5, 2, 4], [3, 1, 4, 6], [5, 3, 6, 2]];
+    let sinv6: EM = (1..=6).map(|e| (e, (7 - e) % 6 + 1)).collect();
+    let ident: EM = EM::new();
+    new_case(s, "hand", &link_of(&tre), &sinv6, None);
+    new_case(s, "hand", &link_of(&tre), &sinv6, Some(1));
+    new_case(s, "hand", &link_of(&tre), &sinv6, Some(4));
+    new_case(s, "hand", &link_of(&tre), &sinv6, Some(2));                       // off-axis base point
+    new_case(s, "hand", &link_of(&tre), &sinv6, Some(9));                       // base point is no edge
+    new_case(s, "hand", &link_of(&tre), &ident, Some(3));                       // identity map
+    new_case(s, "hand", &link_of(&tre), &(1..=6).map(|e| (e, (e + 1) % 6 + 1)).collect(), None);   // rotation of order 3: accepted, not an involution
+    new_case(s, "hand", &link_of(&tre), &(1..=6).map(|e| (e, e % 6 + 1)).collect(), None);         // shift by one: no match
+    new_case(s, "hand", &link_of(&tre), &(1..=6).map(|e| (e, e + 6)).collect(), None);             // images are no edges
+    new_case(s, "hand", &link_of(&vec![]), &ident, None);
+    new_case(s, "hand", &link_of(&vec![]), &ident, Some(0));
+    new_case(s, "hand", &link_of(&vec![[0, 0, 1, 1]]), &ident, Some(0));
+    new_case(s, "hand", &link_of(&vec![[0, 1, 1, 0]]), &[(0, 1), (1, 0)].into_iter().collect(), None);
+    let hopf: Pd = vec![[1, 3, 2, 4], [3, 1, 4, 2]];
+    new_case(s, "hand", &link_of(&hopf), &ident, None);                         // both crossings carry the same labels
+    new_case(s, "hand", &link_of(&hopf), &[(1, 2), (2, 1), (3, 4), (4, 3)].into_iter().collect(), Some(1));
+    let two_hopf: Pd = vec![[1, 3, 2, 4], [3, 1, 4, 2], [5, 7, 6, 8], [7, 5, 8, 6]];
+    new_case(s, "hand", &link_of(&two_hopf), &(1..=8).map(|e| (e, if e <= 4 { e + 4 } else { e - 4 })).collect(), None);   // overwritten entries: inv_x not an involution
+    new_case(s, "hand", &link_of(&vec![[1, 3, 2, 4], [1, 3, 2, 4]]), &ident, None);   // equal crossings: one key
+    new_case(s, "hand", &Link::new(vec![yui_link::Crossing::new(yui_link::CrossingType::X, [1, 3, 2, 4]), yui_link::Crossing::new(yui_link::CrossingType::Xm, [1, 3, 2, 4])]), &ident, None);
+    new_case(s, "hand", &Link::new(vec![yui_link::Crossing::new(yui_link::CrossingType::V, [1, 5, 2, 4]), yui_link::Crossing::new(yui_link::CrossingType::X, [3, 1, 4, 6]), yui_link::Crossing::new(yui_link::CrossingType::Xm, [5, 3, 6, 2])]), &sinv6, Some(1));
+    sinv_case(s, "hand", &vec![]);
+    sinv_case(s, "hand", &tre);
+    sinv_case(s, "hand", &vec![[1, 1, 2, 2]]);
+    sinv_case(s, "hand", &vec![[1, 2, 2, 1]]);
+    sinv_case(s, "hand", &vec![[0, 0, 1, 1]]);
+    sinv_case(s, "hand", &vec![[1, 2, 3, 4], [1, 2, 3, 4]]);
+    sinv_case(s, "hand", &vec![[1, 3, 2, 4], [3, 1, 4, 2]]);
+    sinv_case(s, "hand", &vec![[1, 1, 2, 2], [3, 3, 4, 4]]);
+
+    // every table entry, its mirror, reordered copies
+    for name in NAMES {
+        let Ok(l) = InvLink::load(name) else { continue };
+        let pd = pd_of(l.link());
+        let mut variants: Vec<(String, InvLink)> = vec![(name.to_string(), l.clone()), (format!("{}-mirror", name), l.mirror())];
+        for _ in 0..(if thorough { 4 } else { 1 }) {
+            let p = reorder(r, &pd);
+            match sinv_case(s, "reordered", &p) {
+                Some(x) => variants.push((format!("{}-reordered", name), x)),
+                None => s.oracle(false, "a table code with its crossings listed in another order is accepted by sinv_knot_from_code", &format!("{:?} [{}]", p, name), "panic"),
+            }
+        }
+        if sinv_case(s, "table", &pd).is_none() { s.oracle(false, "a table code is accepted by sinv_knot_from_code", name, "panic"); }
+        for (vn, il) in &variants {
+            inv_oracles(s, vn, il);
+            // the same involution through `new` (covers mirror(): the data of a mirrored link goes through the model's mirror)
+            let f = emap_of(il);
+            let base = il.base_pt();
+            if vn.ends_with("-mirror") {
+                // the mirrored InvLink itself must carry the data of `new` on the mirrored diagram
+                let direct = inv_data_txt(il);
+                let via_new = { let (l1, f1) = (il.link().clone(), f.clone()); guard(move || InvLink::new(l1, move |e| f1[&e], base)).and_then(|x| inv_data_txt(&x)) };
+                s.oracle(direct.is_some() && direct == via_new, "mirror() of an involutive link carries the involution data of the mirrored diagram", vn, &format!("{:?} vs {:?}", direct, via_new));
+            }
+            new_case(s, "table", il.link(), &f, base);
+            if il.link().crossing_num() <= cone_max {
+                for red in [0u8, 1] {
+                    s.case(&format!("icube {} {} {} {}", red, base_txt(base), link_txt(il.link()), emap_txt(il)), "wf=1", true);
+                    s.count("icube.wf");
+                }
+            }
+        }
+        // malformed / boundary codes derived from the table code
+        for _ in 0..(if thorough { 60 } else { 8 }) {
+            let (kind, mut p) = mutate(r, &pd);
+            if r.chance(1, 4) { let (_, q) = mutate(r, &p); p = q; }
+            if p.iter().flat_map(|c| c.iter()).any(|&e| e > 1000) { continue }
+            sinv_case(s, kind, &p);
+        }
+        // InvLink::new with perturbed maps / base points on the table diagram
+        let n = l.link().edges().len();
+        let f0 = emap_of(&l);
+        for _ in 0..(if thorough { 12 } else { 3 }) {
+            let mut f = f0.clone();
+            let base = match r.below(4) { 0 => None, 1 => Some(1), 2 => Some(n / 2 + 1), _ => Some(1 + r.below(n as u64 + 2) as usize) };
+            let kind = match r.below(4) {
+                0 => "base-only",
+                1 => { let a = 1 + r.below(n as u64) as usize; let b = 1 + r.below(n as u64) as usize; let (fa, fb) = (f[&a], f[&b]); f.insert(a, fb); f.insert(b, fa); "map-swap-two-values" }
+                2 => { let a = 1 + r.below(n as u64) as usize; f.insert(a, 1 + r.below(n as u64 + 3) as usize); "map-overwrite-one-value" }
+                _ => { f = (1..=n).map(|e| (e, e)).collect(); "identity-map" }
+            };
+            new_case(s, kind, l.link(), &f, base);
+        }
+    }
+}
+
 fn main() {
     let args = Args::parse();
     quiet_panics();
     let thorough = args.thorough();
     let mut s = Sink::new(&args, "cases: strongly invertible knot diagrams from InvLink::load's table (and the same codes with crossings listed in random orders, and mirrors) x (h,t) in F2^2 (reduced only with t=0) x \
         reduced/unreduced x graded/bigraded; D∘D = 0 on every generator of the library's complex; homology dimensions compared with the Lean cone-of-(1+τ) reference; symmetric builder without τ vs ordinary Kh (library and Lean cube); \
-        ssi over F2[H] (c = H): invariant under crossing reordering, s0 <= s1, s0 = s1 mod 2, mirror negates and swaps; non-trivial = every case; distinct = distinct request lines/descriptions");
+        ssi over F2[H] (c = H): invariant under crossing reordering, s0 <= s1, s0 = s1 mod 2, mirror negates and swaps; \
+        involution data: InvLink::new / sinv_knot_from_code / inv_e / inv_x / mirror on every table entry, mirrors, reordered copies, hand-written boundary cases (equal crossings, overwritten map entries, off-axis base points) \
+        and malformed codes (odd edge count, labels not from 1, gaps, swapped labels, duplicated/dropped/rotated crossings) compared with the Lean code model (accept/panic and all map entries); non-trivial = every case; distinct = distinct request lines/descriptions");
     let mut r = Rng::new(args.seed);
     let (cone_max, ssi_max) = if thorough { (9, 9) } else { (7, 7) };
     let mut names: Vec<&str> = NAMES.to_vec();
@@ -178,5 +395,7 @@ fn main() {
             s.count(&format!("ssi.{},{}", p.0, p.1));
         }
     }
+    // involution data (inv_e / inv_x / mirror / sinv_knot_from_code) against the code model Model/C19Inv.lean
+    inv_stream(&mut s, &mut r, thorough, cone_max);
     s.finish();
 }
